@@ -91,9 +91,12 @@ Module DBC.
 End DBC.
 
 (* ---------------- C07: WAL programs (uncompressed logs): files with sizes, replay output *)
-From GoSST Require Import RecordIO.Format RecordIO.Writer Wal.Wal Corr.C04.
+From GoSST Require Import RecordIO.Format RecordIO.Writer RecordIO.BufWriter Wal.Wal Wal.LogProgram Corr.C04.
 Module C07.
-  Record case := mkCase { c_max : N; c_ops : list wop; c_files : list (N * N); c_recs : list bytes }.
+  (* [c_sys]: for sessions traced at system-call level - the write buffer size, one flag per append (synchronous or
+     not), and per log file (by number) the lengths of the write system calls that went to it, in order *)
+  Record case := mkCase { c_max : N; c_ops : list wop; c_files : list (N * N); c_recs : list bytes;
+                          c_sys : option (nat * list bool * list (N * list N)) }.
 
   Definition dOp (s : sx) : option wop :=
     match s with
@@ -106,11 +109,42 @@ Module C07.
     match s with
     | L [I m; ops; files; recs] =>
         do ops' <- dList dOp ops; do files' <- dList (dPair dN dN) files; do recs' <- dList dB recs;
-        Some (mkCase m ops' files' recs')
+        Some (mkCase m ops' files' recs' None)
+    | L [I m; ops; files; recs; L [cap; syncs; writes]] =>
+        do ops' <- dList dOp ops; do files' <- dList (dPair dN dN) files; do recs' <- dList dB recs;
+        do cap' <- dNat cap; do syncs' <- dList dBool syncs; do writes' <- dList (dPair dN (dList dN)) writes;
+        Some (mkCase m ops' files' recs' (Some (cap', syncs', writes')))
     | _ => None
     end.
 
   Definition idc : codec := C04.codec_of 0 [].
+
+  (* the appends of every log file with their flags: the rotation rule of app_append / app_rotate *)
+  Fixpoint groups (max : N) (ops : list wop) (syncs : list bool) (size : N) (cur : list (bool * bytes))
+                  (done : list (list (bool * bytes))) : list (list (bool * bytes)) :=
+    match ops with
+    | [] => done ++ [cur]
+    | WRotate :: r => groups max r syncs 8 [] (done ++ [cur])
+    | WAppend rec :: r =>
+        let s := match syncs with b :: _ => b | [] => false end in
+        let n := lenN (enc_rec idc (Some rec)) in
+        if max <? size + lenN rec then groups max r (tl syncs) (8 + n) [(s, rec)] (done ++ [cur])
+        else groups max r (tl syncs) (size + n) (cur ++ [(s, rec)]) done
+    end.
+
+  (* what the buffered writer hands to the file for one log file that is closed in the end *)
+  Definition chunk_lens (cap : nat) (g : list (bool * bytes)) : list N :=
+    flat_map (fun e => match e with EWrite ch => [lenN ch] | _ => [] end)
+             (concat (fst (bw_run cap [] (log_ops idc g ++ [BClose])))).
+
+  Definition sys_ok (c : case) : bool :=
+    match c_sys c with
+    | None => true
+    | Some (cap, syncs, writes) =>
+        let gs := groups (c_max c) (c_ops c) syncs 8 [] [] in
+        list_eqb (fun x y => N.eqb (fst x) (fst y) && list_eqb N.eqb (snd x) (snd y))
+                 (combine (map N.of_nat (seq 0 (length gs))) (map (chunk_lens cap) gs)) writes
+    end.
 
   Definition check (c : case) : bool :=
     let a := fold_left (app_step idc (c_max c)) (c_ops c) (app_new idc) in
@@ -120,7 +154,14 @@ Module C07.
     && match replay idc files with
        | (rs, None) => list_eqb bytes_eqb rs (c_recs c)
        | (_, Some _) => false
-       end.
+       end
+    && sys_ok c.
+
+  Definition explain (c : case) :=
+    match c_sys c with
+    | Some (cap, syncs, writes) => map (chunk_lens cap) (groups (c_max c) (c_ops c) syncs 8 [] [])
+    | None => []
+    end.
 
   Definition check_sx (s : sx) : bool :=
     match decode s with Some c => check c | None => false end.
